@@ -247,7 +247,7 @@ def handlers_for(W, rnd, keys):
 def run(out, seed, n, mode):
     rnd = random.Random(seed)
     recs = []
-    custom_names = mode == "custom" and rnd.random() < 0.5
+    custom_names = mode in ("custom", "rpc") and rnd.random() < 0.5
     mk = (lambda: classgen.World("_ser2", "_ign2")) if custom_names else classgen.World
     # two generations of the same class definitions (same names, separate configurations and local class tables):
     # what a name means is relative to the configuration in use
@@ -358,7 +358,13 @@ def record_rpc(W, rnd, config, beans):
     srv_cfg = config.copy()
     srv_cfg.classes = config.classes
     srv_cfg.version = rnd.choice([1.0, 2.0])
-    disp = SimpleJSONRPCDispatcher(config=srv_cfg)
+    # every kind of server object takes the Config (local class table, method / attribute names) the same way
+    kind = rnd.choice(["dispatcher", "dispatcher", "simple", "pooled"])
+    if kind == "dispatcher":
+        disp = SimpleJSONRPCDispatcher(config=srv_cfg)
+    else:
+        from jsonrpclib.SimpleJSONRPCServer import SimpleJSONRPCServer, PooledJSONRPCServer
+        disp = (SimpleJSONRPCServer if kind == "simple" else PooledJSONRPCServer)(("127.0.0.1", 0), logRequests=False, config=srv_cfg)
     got = []
 
     def echo(x):
@@ -371,6 +377,11 @@ def record_rpc(W, rnd, config, beans):
             return disp._marshaled_dispatch(body)
     rec = {"mode": "rpc", "CT": W.CT, "cfg": {"H": [], "ign": []}, "orig": W.enc(orig)}
     res = call(lambda: jsonrpc.ServerProxy("http://loop/", transport=T(""), version=ver, config=config).echo(orig))
+    if kind != "dispatcher":
+        try:
+            disp.server_close()
+        except BaseException:  # noqa
+            pass
     rec["orig_after"] = W.enc(orig)
     d = call(lambda: jsonclass.dump(orig, config=config))
     rec["dumped"] = {"ok": d["ok"], "v": enc(d["v"]), "exc": d["exc"]}
